@@ -3,7 +3,7 @@
    is SpecParse.load_spec: a recursive-descent parser over the RFC 8949 heads (SpecHead.head_spec):
    definite count, indefinite until break, key/value pairing, one item per tag, chunked strings of
    same-type definite chunks, simple values 20..23 only, nesting within L, no refused allocation. *)
-From CB Require Import Word PStream SpecHead PItem PBuild SpecParse PRun PBuild_proofs PFinal PFinal2.
+From CB Require Import Word PStream SpecHead PItem PBuild SpecParse PRun PBuild_proofs PFinal PFinal2 HHeap HItems HOps HRef_proofs HCont_proofs HRead_proofs HLoad_proofs.
 Local Open Scope N_scope.
 
 (* cbor_load succeeds iff the specification accepts, with the same tree — types, widths, values,
@@ -32,3 +32,53 @@ Example C02_examples :
     LOk (IMap true [(IText [0x61], IBytesI [[0x01]; []])]) 9 /\
   load 2048 (2^20) [0xC1; 0x1A; 0x00; 0x00; 0x00; 0x05] = LOk (ITag 1 (IUint I32 5)) 6.
 Proof. repeat split; vm_compute; reflexivity. Qed.
+
+(* ownership: on success every node of the returned tree has reference count one, the fresh live cells are exactly those reachable from it (no decoder stack record survives), no pre-existing cell was touched (payloads are copied into fresh blocks) *)
+Theorem C02_load_h_success :
+  forall (refuse : N -> N -> bool) (L : N) (own ownd : addr -> N)
+           (buf : list N) (w : world) (a : addr) (code : lerr) 
+           (pos rd : N) (w' : world),
+         bytes_ok buf ->
+         (len buf < SIZE_MAX)%N ->
+         HCont_proofs.wf w ->
+         Inv own ownd [] w ->
+         load_h refuse L buf w = Ret (Some a, code, pos, rd) w' ->
+         code = ENone /\
+         pos = 0%N /\
+         (next w <= a)%N /\
+         (forall b : N, (b < next w)%N -> heap w' b = heap w b) /\
+         (forall (b rc : N) (n : node),
+          (next w <= b)%N -> heap w' b = Some (CItem rc n) -> rc = 1%N) /\
+         Inv (fun x : addr => (own x + (if x =? a then 1 else 0))%N) ownd [] w' /\
+         (forall b : N,
+          (next w <= b)%N -> heap w' b <> None <-> HRead_proofs.reach w' a b) /\
+         (forall b sz : N,
+          (next w <= b)%N ->
+          heap w' b = Some (CData sz) ->
+          exists (p rc : N) (n : node),
+            (next w <= p)%N /\
+            heap w' p = Some (CItem rc n) /\ In b (HRead_proofs.node_blocks n)).
+Proof. exact load_h_success. Qed.
+Print Assumptions C02_load_h_success.
+
+(* the heap-level decoder refines the pure one: same acceptance, the returned heap tree abstracts to the pure tree, same read count, same error code and position *)
+Theorem C02_load_h_refines :
+  forall (L cap : N) (own ownd : addr -> N) (buf : list N) (w : world),
+         (SIZE_MAX <= cap)%N ->
+         bytes_ok buf ->
+         (len buf < 2 ^ 57)%N ->
+         HCont_proofs.wf w ->
+         Inv own ownd [] w ->
+         match load L cap buf with
+         | LFault => False
+         | LOk t n =>
+             exists (a : addr) (w' w'' : world),
+               load_h grant L buf w = Ret (Some a, ENone, 0%N, n) w' /\
+               abs_of a w' = Ret t w''
+         | LErr code p q =>
+             exists w' : world,
+               load_h grant L buf w = Ret (None, code, p, q) w'
+         end.
+Proof. exact load_h_refines. Qed.
+Print Assumptions C02_load_h_refines.
+
